@@ -476,7 +476,10 @@ def compile_ast(
                 # For UNION ALL (not distinct), just concat
                 df = pl.concat([df, right_df])
 
-        # name_in_df and select remain the same (from left table)
+        # `select` remains the same (from left table); the hidden columns were dropped
+        # from the frame, so their names must not be tracked any more either
+        selected = set(select)
+        name_in_df = {uid: name for uid, name in name_in_df.items() if uid in selected}
 
     elif isinstance(nd, PolarsImpl):
         df = nd.df
